@@ -46,8 +46,8 @@ CLAIMED["C20"] = dict(
 
 CLAIMED["C19"] = dict(
     text="Single-ordering routine: unbounded proof from the real AST of toposort (Kahn's algorithm) - a returned list contains every vertex exactly once with every edge "
-         "forward, and None is returned only if no sequence at all is a topological ordering (ghost parameter = arbitrary candidate ordering; impossibility lemma by "
-         "induction) - relative to four ASSUMED first-order facts about a ghost counting function (in-degree = number of predecessors not yet output), two ASSUMED pigeonhole "
+         "forward, None is returned only if no sequence at all is a topological ordering, and the while loop terminates (measure len(graph) - len(result)) (ghost parameter = arbitrary candidate ordering; impossibility lemma by "
+         "induction) - relative to four ASSUMED first-order facts about a ghost counting function (in-degree = number of predecessors not yet output), three ASSUMED pigeonhole "
          "lemmas about len(dict) and collections.deque modelled as a sequence. All-orderings routine (each ordering exactly once, none on a cycle): bounded only - toposort_all "
          "and toposort are run on every digraph with self-loops on <= 3 vertices (<= 4 thorough) and on random digraphs up to 7 vertices and compared with permutation "
          "filtering (multiset equality, so repetitions are seen). Level stays exploration because half of the property is bounded.",
